@@ -114,6 +114,22 @@ def run(chk, replay=None):
                         ops.append([4, rng.randrange(2 * n), t0, rng.randrange(3), rand_f32_bits(rng)])
                         ops += [[7], [5, 0], [7]]
                     cases.append(world_case(cfg, n, [enc], ops)); tags.append({1: "invert", 2: "gear", 3: "axle", 4: "differential"}[kind]); metas.append(None)
+    # re-issued commands: the same kind and value again with a newer time stamp (and, for contrast, a changed value with the same
+    # time stamp) on a later round, at either side, for several rounds: the newer stamp must reach every terminal
+    for kind, kw in [(1, {}), (2, {}), (2, {"ratio": f2b(1.0)}), (2, {"ratio": f2b(-2.0)}), (3, {"n": 2}), (3, {"n": 4})]:
+        for _ in range(12 if not big else 300):
+            enc, n = dev_spec(rng, kind, **kw)
+            ops = [[1, i, n + i] for i in range(n)] if rng.random() < 0.5 else []
+            nt = 2 * n
+            t0 = rng.choice([0, -10**9, 10**12])
+            k0, v0 = rng.randrange(3), rng.choice([f2b(1.0), f2b(-3.5), f2b(0.0), rand_f32_bits(rng)])
+            src = rng.randrange(nt if ops else n)
+            for rnd in range(rng.randint(2, 5)):
+                t0 += rng.choice([1, 7, 10**6])
+                same = rng.random() < 0.7
+                ops.append([4, src if rng.random() < 0.8 else rng.randrange(nt if ops else n), t0, k0, v0 if same else rand_f32_bits(rng)])
+                ops += [[7], [5, 0], [7]]
+            cases.append(world_case(cfg, n, [enc], ops)); tags.append("reissue/" + {1: "invert", 2: "gear", 3: "axle"}[kind]); metas.append(None)
     # chains of 1..5 devices joined by connected terminals, updated in order
     for _ in range(400 if not big else 20000):
         k = rng.randint(1, 5)
